@@ -67,11 +67,13 @@ enum FaultKind
                       // connection is then closed without a byte of response (pos: 0 = FIN, 1 = RST) - a reused keep-alive connection dying
   FK_FRAMING_X,       // full request, one of the malformed responses in FRAMING_X (pos = variant): each is a deterministic
                       // framing/parse violation of the response, whatever the client calls it internally
-  FK_KINDS
+  FK_KINDS,
+  FK_BIG_BODY = FK_KINDS // NOT in the general menu: a proper response whose 300-byte body exceeds the (shrunk) synchronous receive
+                         // buffer of the client's transport - used only by the scenario sync_buffer_overflow
 };
 const char *faultName(int k)
 {
-  static const char *n[] = {"ok", "refuse", "blackhole", "rst@req", "fin@req", "rst@resp", "fin@resp", "bad-status", "cl+te", "two-cl", "silence", "surplus", "conn-close", "http10", "second-req-drop", "framing-x"};
+  static const char *n[] = {"ok", "refuse", "blackhole", "rst@req", "fin@req", "rst@resp", "fin@resp", "bad-status", "cl+te", "two-cl", "silence", "surplus", "conn-close", "http10", "second-req-drop", "framing-x", "big-body"};
   return n[k];
 }
 struct Fault
@@ -292,6 +294,10 @@ void serverOnReadable(Server &sv, Conn &c)
       break;
     case FK_FRAMING_X:
       out = FRAMING_X[c.fault.pos % N_FRAMING_X].wire;
+      c.faulted = true;
+      break;
+    case FK_BIG_BODY:
+      out = "HTTP/1.1 200 OK\r\nContent-Length: 300\r\n\r\n" + std::string(300, 'x');
       c.faulted = true;
       break;
     }
@@ -569,6 +575,49 @@ void single(bool allPositions, int secondMenu)
   mc_quiesce();
 }
 
+// ---------------------------------------------------------------- response larger than the synchronous receive buffer
+// The transport reports the overflow of its synchronous receive buffer as a distinct, sticky error; for the HTTP client
+// that is a deterministic failure of this response (re-sending yields the same response), so it must not be retried and
+// a non-idempotent request must not be sent again.  The buffer bound (1 MiB by default, not configurable through
+// HttpClient::Config) is shrunk to 64 bytes on the client's own transport object so that a 300-byte body overflows it.
+void syncBufferOverflow()
+{
+  mc_label("main:overflow");
+  simk_cfg.tcpRcvBuf = 8192;
+  simk_cfg.shortIo = false;
+  mc_set_sleep_quantum(1000000000ull);
+  std::string method = METHODS[mc_choose(5, MC_FREE)];
+  int retries = mc_choose(3, MC_FREE);
+  Server sv;
+  Fault big;
+  big.kind = FK_BIG_BODY;
+  sv.plan = {big, Fault{}, Fault{}};
+  int script[3] = {0, 0, 0};
+  simk_connect_script(8080, script, 3);
+  std::thread th;
+  serverStart(sv, th);
+  auto cl = makeClient();
+  cl->ensureInitialized();
+  cl->_transport->_impl->config.maxSyncReceiveBuffer = 64;
+  CallResult r = doCall(*cl, method, "r1", retries);
+  mc_quiesce(50ull * 1000000ull);
+  serverStop(sv, th);
+  std::string plan = method + " retries=" + std::to_string(retries) + " [big-body]";
+  mc_obs("%s -> %s %d %s", plan.c_str(), r.ok ? "ok" : (r.framingError ? "framing-error" : "error"), r.status, r.error.substr(0, 60).c_str());
+  int wireAttempts = 0, conns = int(sv.conns.size());
+  for (auto &c : sv.conns)
+    if (!c.in.empty())
+      ++wireAttempts;
+  if (!idempotent(method) && wireAttempts > 1)
+    mc_violation("at-most-once", "non-idempotent-sent-twice:after:big-body", method + " reached the wire on " + std::to_string(wireAttempts) + " connections (" + plan + ")");
+  if (conns > 1)
+    mc_violation("framing-not-retried", "framing-error-retried:sync-buffer-overflow", "a response that overflowed the synchronous receive buffer led to " + std::to_string(conns) + " attempts (" + plan + ")");
+  if (!sv.violation.empty())
+    mc_violation(sv.violationClause.c_str(), sv.violationSig, sv.violation + " (" + plan + ")");
+  cl.reset();
+  mc_quiesce();
+}
+
 // ---------------------------------------------------------------- two requests on one client (reuse rules)
 void sequence()
 {
@@ -708,6 +757,15 @@ int main(int argc, char **argv)
     m.thorough.S = 0;
     m.horizon_s = 120;
     m.weight = 6;
+    v.push_back(m);
+  }
+  {
+    McScenario m;
+    m.name = "sync_buffer_overflow";
+    m.body = []() { syncBufferOverflow(); };
+    m.quick.S = 0;
+    m.thorough.S = 0;
+    m.horizon_s = 120;
     v.push_back(m);
   }
   {
